@@ -267,6 +267,11 @@ class PreParser:
             self._parse(code)
         except TokenError as e:
             raise SyntaxException(e.args[0], code, e.args[1][0], e.args[1][1]) from e
+        except SyntaxError as e:
+            # the tokenizer reports bad indentation (IndentationError, TabError)
+            # and a few other lexical errors as plain python SyntaxErrors
+            col_offset = e.offset - 1 if e.offset else 0
+            raise SyntaxException(e.msg, code, e.lineno, col_offset) from None
 
     def _parse(self, code: str):
         adjustments: dict = {}
